@@ -323,4 +323,55 @@ def hardWithdraw (price : Market → Option Int) (mm : Nat → Option Market) (d
 def hardLiquidate (price : Market → Option Int) (mm : Nat → Option Market) (dep bor : List Nat)
     (i : HardIn) : Res Unit := ltvGate price mm dep bor i
 
+/-! ### the source shapes this model transcribes
+  `Props/C18.lean` proves that the tables regenerated from /repo on every run (`KV.Gen.c18…`) equal these;
+  a source edit that changes a guard, a filter, the comparator, the mean, the end blocker or the set of
+  price readers / gate calls re-opens that obligation. -/
+namespace Shape
+/-- `live`/`setPrice`: refuse unless `expiry.After(blockTime)` -/
+def setPriceGuard : String := "!expiry.After(ctx.BlockTime())"
+/-- `livePrices` (per-market routine) -/
+def perMarketFilter : String := "v.Expiry.After(ctx.BlockTime())"
+/-- `collect` (all-markets routine) -/
+def allMarketsFilter : String := "postedPrice.Expiry.After(ctx.BlockTime())"
+/-- `aggregate` -/
+def noPriceTest : String := "len(notExpiredPrices) == 0"
+/-- `getCurrentPrice` -/
+def zeroTest : String := "price.Price.Equal(sdk.ZeroDec())"
+/-- `ins`/`isort` -/
+def medianLess : String := "prices[i].Price.LT(prices[j].Price)"
+/-- `mean` -/
+def meanBody : List String := ["sum := priceA.Price.Add(priceB.Price)", "mean := sum.Quo(sdk.NewDec(2))", "return mean"]
+/-- `endBlocker` -/
+def endBlockerCalls : List String := ["k.SetCurrentPricesForAllMarkets"]
+/-- the price readers covered by a gate model (ValidateRepay and the querier's
+    CalculateCollateralizationRatioFromAbsoluteRatio read prices but are not among the listed actions) -/
+def priceReaders : List (String × String × String × Nat) := [
+  ("x/cdp/abci.go", "BeginBlocker", "UpdatePricefeedStatus", 2),
+  ("x/cdp/genesis.go", "InitGenesis", "UpdatePricefeedStatus", 2),
+  ("x/cdp/keeper/cdp.go", "CalculateCollateralizationRatio", "GetCurrentPrice", 1),
+  ("x/cdp/keeper/cdp.go", "CalculateCollateralizationRatioFromAbsoluteRatio", "GetCurrentPrice", 1),
+  ("x/cdp/keeper/cdp.go", "UpdatePricefeedStatus", "GetCurrentPrice", 1),
+  ("x/cdp/keeper/cdp.go", "ValidateCollateral", "GetMarketStatus", 2),
+  ("x/cdp/keeper/seize.go", "LiquidateCdps", "GetCurrentPrice", 1),
+  ("x/hard/keeper/borrow.go", "ValidateBorrow", "GetCurrentPrice", 3),
+  ("x/hard/keeper/liquidation.go", "LoadLiquidationData", "GetCurrentPrice", 1),
+  ("x/hard/keeper/repay.go", "ValidateRepay", "GetCurrentPrice", 2)
+]
+/-- which gate each action calls (`cdpCreate` … `hardLiquidate`) -/
+def gateCalls : List (String × String × List String) := [
+  ("x/cdp/keeper/cdp.go", "AddCdp", ["ValidateCollateral", "ValidateCollateralizationRatio"]),
+  ("x/cdp/keeper/deposit.go", "DepositCollateral", ["ValidateCollateral"]),
+  ("x/cdp/keeper/deposit.go", "WithdrawCollateral", ["ValidateCollateral", "CalculateCollateralizationRatio"]),
+  ("x/cdp/keeper/draw.go", "AddPrincipal", ["ValidateCollateralizationRatio"]),
+  ("x/cdp/keeper/seize.go", "AttemptKeeperLiquidation", ["ValidateLiquidation"]),
+  ("x/cdp/keeper/cdp.go", "ValidateCollateralizationRatio", ["CalculateCollateralizationRatio"]),
+  ("x/cdp/keeper/seize.go", "ValidateLiquidation", ["CalculateCollateralizationRatio"]),
+  ("x/hard/keeper/borrow.go", "Borrow", ["ValidateBorrow"]),
+  ("x/hard/keeper/withdraw.go", "Withdraw", ["IsWithinValidLtvRange"]),
+  ("x/hard/keeper/liquidation.go", "AttemptKeeperLiquidation", ["IsWithinValidLtvRange"]),
+  ("x/hard/keeper/liquidation.go", "IsWithinValidLtvRange", ["LoadLiquidationData"])
+]
+end Shape
+
 end KV.PF
